@@ -194,6 +194,28 @@ def err_class(result):
     return r[:90]
 
 
+def construct_context(result, decided_ids, built_by_id):
+    """For "failed to construct checked transaction" errors on a decided block: is the refused transaction one that is valid only
+    after an earlier transaction of the same block (so that the proposer, executing mempool transactions one after another, could
+    include it while everybody who rebuilds the block's transactions against the block-start state refuses it)? Returns a signature
+    suffix naming the situation, or "" when it is not recognised (the signature then stays the generic error class)."""
+    if "failed to construct checked transaction" not in result:
+        return ""
+    if "FeeAssetChange" in result and "failed to remove fee asset" in result:
+        ops = collections.defaultdict(list)
+        for pos, i in enumerate(decided_ids):
+            b = built_by_id.get(i)
+            for a in (b or {}).get("actions", []):
+                if a["kind"] == "fee_asset_change":
+                    ops[a["asset"]].append((pos, a["op"]))
+        for asset, lst in ops.items():
+            adds = [p for p, o in lst if o == "add"]
+            rems = [p for p, o in lst if o == "remove"]
+            if adds and rems and min(adds) < max(rems):
+                return "/FeeAssetChange-removal-valid-only-after-the-addition-earlier-in-the-same-block"
+    return ""
+
+
 class TxObs:
     """One observed execution of one transaction by the lab node (decided tx or trial on a fork)."""
     __slots__ = ("hist", "height", "where", "trial", "tx", "result", "events", "diff", "pre", "signer", "nonce", "id")
